@@ -94,11 +94,18 @@ def _data_specs(rng, kind, K, D, F, N, E):
     seed = int(rng.randint(2 ** 31))
     layout = _choice(rng, ['C', 'C', 'F', 'neg', 'strided'])
     specs = {}
-    if kind in models.COMPLEX_OBS:
+    if kind == 'cwmm' and rng.randint(3) == 0:
+        # directional sources over the whole concentration range
+        hi = float(_choice(rng, [30.0, 300.0, 690.0]))
+        specs['obs'] = {'kind': 'cdirectional', 'shape': lead + [N, D], 'K': K,
+                        'seed': seed, 'layout': layout,
+                        'kappa_low': float(_choice(rng, [5.0, hi / 2])),
+                        'kappa_high': hi}
+    elif kind in models.COMPLEX_OBS:
         specs['obs'] = {'kind': 'cclusters', 'shape': lead + [N, D], 'K': K,
                         'seed': seed, 'layout': layout,
                         'spread': float(_choice(rng, [0.5, 1.0, 2.0])),
-                        'dynamic_range': float(_choice(rng, [0, 0, 0, 6, 12]))}
+                        'dynamic_range': float(_choice(rng, [0, 0, 0, 6, 12, 19]))}
     else:
         specs['obs'] = {'kind': 'rclusters', 'shape': lead + [N, D], 'K': K,
                         'seed': seed, 'layout': layout,
@@ -106,6 +113,9 @@ def _data_specs(rng, kind, K, D, F, N, E):
                         'scale': float(_choice(rng, [1.0, 1.0, 1.0, 1e-2, 30.0])),
                         'offset': float(_choice(rng, [0, 0, 0, 0, 1e3, 3e5])),
                         'order': _choice(rng, ['shuffled', 'shuffled', 'sorted'])}
+        if rng.randint(5) == 0:
+            specs['obs']['outliers'] = int(rng.randint(1, 4))
+            specs['obs']['outlier_scale'] = float(_choice(rng, [30.0, 100.0, 300.0]))
     if kind == 'gcacgmm':
         specs['emb'] = {'kind': 'rclusters', 'shape': lead + [N, E], 'K': K,
                         'seed': int(rng.randint(2 ** 31)), 'layout': 'C',
@@ -201,7 +211,8 @@ def generate(run_seed, tier='quick'):
         # 1000 markers, 4e-11 with 400, 2e-7 -- above tolerance -- with 100),
         # and the property quantifies over exact / MM M-steps only
         trainer_kwargs = _choice(rng, [{}, {}, {'max_concentration': 100},
-                                       {'max_concentration': 300}])
+                                       {'max_concentration': 300}]
+                                 + ([{'max_concentration': 700}] if D <= 7 else []))
     ops = []
     # earlier history on the shared trainer
     for _ in range(int(_choice(rng, [0, 0, 1, 2, 3, 5]))):
